@@ -35,7 +35,7 @@ def on_grid(x):
 # generator
 class Builder:
     def __init__(self, rng, with_rf=False, with_adc=False, max_blocks=8, reread=False, long=False, twins=False,
-                 gapped=False):
+                 gapped=False, adc_on_rf=False):
         import pypulseq as pp
         self.pp = pp
         self.rng = rng
@@ -43,6 +43,7 @@ class Builder:
         self.reread = reread
         self.long = long          # 1-10 s of delay in front, events one / two raster steps apart
         self.twins = twins        # extended trapezoid + arbitrary gradient with the SAME normalised amplitude shape
+        self.adc_on_rf = adc_on_rf  # ADC running under an RF pulse with one sample exactly on the RF centre
         self.gapped = gapped      # self-contained blocks stored with set_block under gapped, unordered block numbers
         self.raster = r.choice([10e-6, 10e-6, 20e-6]) if not reread else r.choice([20e-6, 20e-6, 10e-6])
         self.rk = int(round(self.raster * 1e6))          # raster in us
@@ -182,10 +183,22 @@ class Builder:
         blocks = [copy.deepcopy(b) for b in self.desc]
         ops = []
         for _ in range(r.choice([1, 1, 2, 2, 3])):
-            kind = r.choice(['longer', 'longer', 'replace', 'delay', 'add'])
+            kind = r.choice(['longer', 'longer', 'replace', 'delay', 'add', 'flip', 'flip', 'mod', 'dedup'])
             ends0 = [i for i, b in enumerate(blocks) if all(self.g_last(g) == 0 for g in b['g'].values())]
             both0 = [i for i in ends0 if all(self.g_first(g) == 0 for g in blocks[i]['g'].values())]
-            if kind == 'longer' and ends0:
+            if kind in ('flip', 'mod'):
+                # flip_grad_axis / mod_grad_axis on an axis that carries gradients (all of them scale together, so the
+                # sequence stays edge consistent); the decoded-block cache must not keep the old amplitudes
+                axes = [c for c in 'xyz' if any(c in b['g'] for b in blocks)]
+                if not axes:
+                    continue
+                ax = r.choice(axes)
+                f = -1 if kind == 'flip' else r.choice([-1, 2, 0.5, -2])
+                ops.append({'op': 'flip', 'axis': ax} if kind == 'flip' else {'op': 'mod', 'axis': ax, 'factor': f})
+                blocks = scale_desc(blocks, ax, f)
+            elif kind == 'dedup':
+                ops.append({'op': 'dedup'})
+            elif kind == 'longer' and ends0:
                 i = r.choice(ends0)
                 nb = copy.deepcopy(blocks[i])
                 nb['delay'] = self.block_end(nb) + r.choice([1, 2, 5, 13, 40])
@@ -240,10 +253,21 @@ class Builder:
                 blk['g'][ch] = self.gen_ext(f, lv) if k == 'ext' else self.gen_arb(f, lv)
             if self.with_rf and r.random() < 0.45:
                 use = r.choice(RF_USES + ['excitation', 'refocusing'])
-                shape = r.choice(['block', 'sinc', 'sinc', 'lobes'])
+                shape = r.choice(['block', 'block', 'sinc', 'sinc', 'lobes'])
                 blk['rf'] = {'shape': shape, 'use': use, 'dur': r.randint(2, 25) * 10, 'delay': r.choice([0, 0, 10, 35]),
                              'tbw': r.choice([2, 4]), 'center_pos': r.choice([0.5, 0.5, 0.25, 0.7]),
                              'flip': r.choice([0.3, 1.5707963267948966, 3.141592653589793])}
+                if shape == 'block':
+                    # every other block pulse repeats the B1 AMPLITUDE of the previous one with another duration
+                    # (flip and duration both doubled / halved: byte-identical signal samples, different time axis)
+                    prev = getattr(self, 'prev_block_rf', None)
+                    if prev is not None and r.random() < 0.6:
+                        pf, pd = prev
+                        if pd * 2 <= 600 and pf * 2 <= 3.2 and r.random() < 0.7:
+                            blk['rf']['flip'], blk['rf']['dur'] = pf * 2, pd * 2
+                        elif pd % 20 == 0:
+                            blk['rf']['flip'], blk['rf']['dur'] = pf / 2, pd // 2
+                    self.prev_block_rf = (blk['rf']['flip'], blk['rf']['dur'])
                 if shape == 'lobes':
                     # composite pulse: 2-3 lobes of EQUAL peak amplitude and different length (in RF rasters),
                     # separated by lower stretches: the maximum is reached on an unevenly distributed sample set
@@ -262,6 +286,16 @@ class Builder:
                     if pad:
                         segs.append([pad, 0.0])
                     blk['rf']['dur'] = sum(n for n, _ in segs)
+                if self.adc_on_rf and self.with_adc and r.random() < 0.7 and \
+                        (shape == 'block' or (shape == 'sinc' and blk['rf']['center_pos'] == 0.5)):
+                    # an ADC in the same block with sample n0 exactly on the RF centre (delay + dur/2); dwell >= 4 us
+                    # keeps every other sample more than one RF raster away from the centre
+                    centre_u = (blk['rf']['delay'] * 10 + blk['rf']['dur'] * 5)        # units of 100 ns
+                    w = r.choice([40, 60, 100, 200])
+                    n0 = r.randint(0, max(0, (centre_u - w // 2) // w))
+                    a_u = centre_u - n0 * w - w // 2
+                    if a_u >= 0 and a_u % 10 == 0:
+                        blk['adc'] = {'n': n0 + 1 + r.randint(0, 8), 'dwell': w, 'delay': a_u // 10}
             elif self.with_adc and r.random() < 0.6:
                 blk['adc'] = {'n': r.randint(1, 16), 'dwell': r.choice([10, 25, 50, 100, 237]),   # units of 100 ns
                               'delay': r.choice([0, 0, 5, 13, 40])}                               # us
@@ -334,6 +368,70 @@ class Builder:
         return case
 
 
+def scale_desc(blocks, axis, f):
+    """description of the blocks after mod_grad_axis(axis, f)"""
+    import copy
+    out = []
+    for b in blocks:
+        b = copy.deepcopy(b)
+        g = b['g'].get(axis)
+        if g is not None:
+            if g['k'] == 'trap':
+                g['amp'] = g['amp'] * f
+            elif g['k'] == 'ext':
+                g['vals'] = [v * f for v in g['vals']]
+            else:
+                g['w'] = [v * f for v in g['w']]
+                g['first'] = g['first'] * f
+                g['last'] = g['last'] * f
+        out.append(b)
+    return out
+
+
+def fresh_view(seq):
+    """the sequence AS IT IS NOW, decoded without any cache: a deep copy with use_block_cache=False and an empty
+    block cache.  Its get_block() defines the events every export of the live object has to render."""
+    import copy
+    s2 = copy.deepcopy(seq)
+    s2.use_block_cache = False
+    s2.block_cache = {}
+    return s2
+
+
+def apply_op(seq, blocks, op, case):
+    """one history operation through the public API on the live sequence object, and on its description
+    (None when the description is no longer known, e.g. after reading another file)"""
+    import os
+    import tempfile
+    kind = op['op']
+    if kind in ('set', 'add'):
+        system = make_system(case)
+        raster = case['raster_us'] * 1e-6
+        evs = block_events(op['block'], system, raster)
+        if kind == 'set':
+            seq.set_block(op['index'] + 1, *evs)
+            return blocks[:op['index']] + [op['block']] + blocks[op['index'] + 1:] if blocks is not None else None
+        seq.add_block(*evs)
+        return blocks + [op['block']] if blocks is not None else None
+    if kind == 'flip':
+        seq.flip_grad_axis(op['axis'])
+        return scale_desc(blocks, op['axis'], -1) if blocks is not None else None
+    if kind == 'mod':
+        seq.mod_grad_axis(op['axis'], op['factor'])
+        return scale_desc(blocks, op['axis'], op['factor']) if blocks is not None else None
+    if kind == 'dedup':
+        seq.remove_duplicates(in_place=True)
+        return None      # dedup rounds the stored numbers to its key digits: the exact description is gone
+    if kind == 'read':
+        other = build_sequence(op['case'])
+        with tempfile.TemporaryDirectory(prefix='pvC08') as d:
+            fn = os.path.join(d, 'b.seq')
+            other.write(fn, create_signature=False)
+            seq.read(fn)
+        return None
+    raise ValueError('unknown history op %r' % (kind,))
+
+
 def make_system(case):
     import pypulseq as pp
     raster = case['raster_us'] * 1e-6
@@ -384,7 +482,7 @@ def build_sequence(case):
     import pypulseq as pp
     raster = case['raster_us'] * 1e-6
     system = make_system(case)
-    seq = pp.Sequence(system)
+    seq = pp.Sequence(system, use_block_cache=case.get('cache', True))
     ids = case.get('block_ids')
     for k, blk in enumerate(case['blocks']):
         if ids:
@@ -609,17 +707,23 @@ class Rendering:
         return w
 
     def max_slope(self):
+        if hasattr(self, '_ms'):
+            return self._ms
         m = Fraction(0)
         for ts, vs in self.cors:
             for i in range(len(ts) - 1):
                 if ts[i + 1] > ts[i]:
                     m = max(m, abs(vs[i + 1] - vs[i]) / (ts[i + 1] - ts[i]))
+        self._ms = m
         return m
 
     def max_abs(self):
+        if hasattr(self, '_ma'):
+            return self._ma
         m = Fraction(0)
         for st, en, g in self.items:
             m = max([m] + [abs(v) for v in event_corners(g, self.h.raster)[1]])
+        self._ma = m
         return m
 
     def value(self, t):
